@@ -27,7 +27,7 @@ MANIFEST = {
 }
 
 NX, NY = 5, 3
-TOW = [("west_mast", 50.001, 10.002, 5.0), ("hill_top", 50.004, 10.0005, 7.5), ("east_mast", 49.999, 10.006, 3.0), ("alpha", 50.0025, 9.998, 12.0)]  # deliberately not in alphabetical order
+TOW = [("west_mast", 50.001, 10.002, 5.0), ("hill_top", 50, 10.0005, 7), ("east_mast", 49.999, 10.006, 3.0), ("alpha", 50.0025, 9.998, 12.0)]  # deliberately not in alphabetical order
 
 
 def lattice(tier):
@@ -52,6 +52,10 @@ def build(case):
         met["z0"] = 0.08
     else:
         met = {"z0": 0.08, "mol": -40.0, "wind_speed": 2.5, "wind_dir": 33.0}
+    if case["nt"] % 2 == 0 and case["forcing"] != "z0-scalar":
+        # whole numbers written as integers (YAML style)
+        met["wind_dir"] = [10 + 70 * i for i in range(ns)]
+        met["mol"] = [-50 - 3 * i for i in range(ns)]
     if case["ts"] == "iso":
         met["timestamps"] = ["2024-03-%02dT06:30" % (i + 1) for i in range(ns)]
     cfg = parse_config_dict({
